@@ -197,6 +197,10 @@ def canonical(expr, local, keys: Keys, stats):
             return type(e).__name__ + ":" + mask(str(e))
         parts = [go(a) for a in e.args]
         nm = type(e).__name__
+        # a >= b is b <= a: SymPy flips relationals depending on the (name) order of their sides
+        if nm in ("GreaterThan", "StrictGreaterThan") and len(parts) == 2:
+            nm = {"GreaterThan": "LessThan", "StrictGreaterThan": "StrictLessThan"}[nm]
+            parts.reverse()
         if nm in COMMUTATIVE_NODES or (isinstance(e, (sympy.Add, sympy.Mul)) and e.is_commutative is not False):
             parts.sort()
         return nm + "(" + ", ".join(parts) + ")"
